@@ -15,6 +15,8 @@ INP = {"iadd": operator.iadd, "isub": operator.isub, "imul": operator.imul, "itr
 
 def val(q):
     n, d = q
+    if d == 0:                              # the non-finite floats: <<0,0>> NaN, <<1,0>> +inf, <<-1,0>> -inf
+        return float("nan") if n == 0 else float("inf") if n > 0 else float("-inf")
     return n if d == 1 else n / d          # dyadic rationals are exact floats
 
 
@@ -25,6 +27,10 @@ def rat(v):
         v = Payload.get(v.payload)
     if isinstance(v, bool):
         return [int(v), 1]
+    if isinstance(v, float) and v != v:
+        return [0, 0]
+    if isinstance(v, float) and v in (float("inf"), float("-inf")):
+        return [1 if v > 0 else -1, 0]
     f = Fraction(v)
     return [f.numerator, f.denominator]
 
